@@ -5,7 +5,7 @@
    "Every seed" = every stream of draws [s0]; a run that exhausts the stream returns None, and the
    invariant is stated for EVERY recorded intermediate state, so a run cut anywhere satisfies it. *)
 From Coq Require Import ZArith List Arith Permutation QArith.
-From BCT Require Import Base.Mat Base.ListX Model.Rewire Proofs.RewireSwap Proofs.RewireInv Proofs.RewireRun Proofs.RewireBin.
+From BCT Require Import Base.Mat Base.ListX Model.Rewire Model.RewireSpec Proofs.RewireSwap Proofs.RewireInv Proofs.RewireRun Proofs.RewireBin Proofs.RewireSpec Gen.RewireTable.
 Import ListNotations.
 Open Scope Z_scope.
 
@@ -74,6 +74,23 @@ Theorem C01_rbu_step_partial : forall R a b c d,
   (forall x, rbu_swap R a b c d x x = R x x).
 Proof. exact rbu_step. Qed.
 
+(* the tie by translation: Gen/RewireTable.v is regenerated from the AST of bct/algorithms/reference.py on every
+   run (harness/translate_rewire.py); the swap table read off the source (edge-list source, four-distinct test,
+   flip block, rewiring condition, ordered cell writes, index patches, presence of the lattice / connectivity / mask
+   conditions, permutation before and inverse permutation after) equals the table the engine implements ... *)
+Theorem C01_source_table : list_eqb spec_eqb source_table expected_table = true.
+Proof. exact src_table_ok. Qed.
+
+(* ... and the engine's accepted branch IS the execution of that table: cell writes in source order, index patches,
+   four-distinct test, rewiring condition *)
+Theorem C01_engine_is_table : forall (und : bool) R a b c d e1 e2 i j,
+  let r := mkenv a b c d in
+  (if und then swap_und R a b c d else swap_dir R a b c d) = exec_writes r (if und then writes_und else writes_dir) R /\
+  (i, vupd (vupd j e1 d) e2 b) = exec_patches r e1 e2 patches_std (i, j) /\
+  four_ok a b c d = eval_four r four_std /\
+  (Z.eqb (R a d) 0 && Z.eqb (R c b) 0)%bool = eval_cond r R cond_std.
+Proof. exact attempt_is_table. Qed.
+
 (* non-vacuity: a recorded run of the implementation (randmio_und, 5-node ring, itr=1, seed 7) replayed by the model:
    four accepted swaps, all draws consumed *)
 Example C01_nonvacuous :
@@ -92,3 +109,5 @@ Print Assumptions C01_run_caller.
 Print Assumptions C01_partial_und.
 Print Assumptions C01_attempt.
 Print Assumptions C01_rbu_step_partial.
+Print Assumptions C01_source_table.
+Print Assumptions C01_engine_is_table.
